@@ -653,7 +653,10 @@ def _normalise_filter_loop(tree):
         for x in ast.walk(c):
             if isinstance(x, ast.Call) and not (
                     isinstance(x.func, ast.Name) and
-                    x.func.id == 'isinstance'):
+                    x.func.id == 'isinstance') and not (
+                    isinstance(x.func, ast.Attribute) and
+                    x.func.attr.startswith(('created_', 'has_', 'is_',
+                                            'get_'))):
                 return False
         return True
 
@@ -756,10 +759,11 @@ def _split_tuple_assign(tree):
                     isinstance(st.value, (ast.Tuple, ast.List)) and \
                     len(st.targets[0].elts) == len(st.value.elts) and \
                     all(isinstance(t, ast.Name) for t in st.targets[0].elts) \
-                    and all(isinstance(v, (ast.Name, ast.Constant))
-                            for v in st.value.elts):
+                    and not any(isinstance(v, ast.Starred)
+                                for v in st.value.elts):
                 tn = {t.id for t in st.targets[0].elts}
-                vn = {v.id for v in st.value.elts if isinstance(v, ast.Name)}
+                vn = {x.id for v in st.value.elts for x in ast.walk(v)
+                      if isinstance(x, ast.Name)}
                 if not (tn & vn) and len(tn) == len(st.targets[0].elts):
                     for t, v in zip(st.targets[0].elts, st.value.elts):
                         out.append(ast.copy_location(ast.Assign(
